@@ -45,28 +45,22 @@ Definition thr_orn_bad := filter (fun row => let '(n, o, a) := row in
 Definition plan_model (pk dp : list N) (fp_match ecdsa : N) : N :=
   match has_ecdsa_key [mkAssetKey (if fp_match =? 1 then 5 else 9) dp (ecdsa =? 1)] 5 [pk] with
   | ROk false => 0 | ROk true => 1 | RErr _ => 3 | RPanic _ => 2 end.
-Definition plan_bad_as_coded := map (fun row => (row, plan_model (fst (fst row)) (snd (fst row)) (fst (fst (snd row))) (snd (fst (snd row)))))
+(* the tie DEMANDS the graph of the code as written (planner_total); rows that differ are listed *)
+Definition plan_bad := map (fun row => (row, plan_model (fst (fst row)) (snd (fst row)) (fst (fst (snd row))) (snd (fst (snd row)))))
   (filter (fun row => let '((pk, dp), (fm, ec, c)) := row in negb (plan_model pk dp fm ec =? c)) plan_rows).
 
-(* the repaired function (planner_total): same fold, child_of_fixed inside *)
-Definition plan_model_fixed (pk dp : list N) (fp_match ecdsa : N) : N :=
+(* diagnosis only: does the implementation's graph equal the code BEFORE /repo 540253fb
+   (len - 1 on an empty path: DESIGN 10-f)?  1 = yes: the repair has been lost. *)
+Definition plan_model_before (pk dp : list N) (fp_match ecdsa : N) : N :=
   if (ecdsa =? 1) && (fp_match =? 1) then
-    match child_of_fixed [pk] dp with ROk false => 0 | ROk true => 1 | RErr _ => 3 | RPanic _ => 2 end
+    match child_of_before_540253fb [pk] dp with ROk false => 0 | ROk true => 1 | RErr _ => 3 | RPanic _ => 2 end
   else 0.
-Definition plan_bad_fixed := map (fun row => (row, plan_model_fixed (fst (fst row)) (snd (fst row)) (fst (fst (snd row))) (snd (fst (snd row)))))
-  (filter (fun row => let '((pk, dp), (fm, ec, c)) := row in negb (plan_model_fixed pk dp fm ec =? c)) plan_rows).
-
-(* The code either still is the one DESIGN 10-f describes (planner_refuted applies, the panic
-   rows are in the table) or has been repaired (planner_total applies): the tie holds when
-   the implementation's graph equals ONE of the two models on every row. *)
-Definition planner_variant : N :=
-  match plan_bad_as_coded, plan_bad_fixed with
-  | [], _ => 1       (* as coded: panics on an empty path *)
-  | _, [] => 2       (* repaired *)
-  | _, _ => 0
+Definition planner_regressed : N :=
+  match plan_bad with
+  | [] => 0
+  | _ => if forallb (fun row => let '((pk, dp), (fm, ec, c)) := row in plan_model_before pk dp fm ec =? c) plan_rows then 1 else 2
   end.
-Definition plan_bad := match planner_variant with 0 => plan_bad_as_coded | _ => [] end.
-Eval vm_compute in planner_variant.
+Eval vm_compute in planner_regressed.
 
 (* ---- lexer ---- *)
 Definition lex_obs (b : list N) : N * N :=
